@@ -451,11 +451,13 @@ async def sorted(
         try:
             return _sync_builtins.sorted(iterable, reverse=reverse)  # type: ignore
         except TypeError:
-            items: _sync_builtins.list[Any] = [item async for item in aiter(iterable)]
+            async with ScopedIter(iterable) as item_iter:
+                items: _sync_builtins.list[Any] = [item async for item in item_iter]
             items.sort(reverse=reverse)
             return items
     else:
         async_key = _awaitify(key)
-        keyed_items = [(await async_key(item), item) async for item in aiter(iterable)]
+        async with ScopedIter(iterable) as item_iter:
+            keyed_items = [(await async_key(item), item) async for item in item_iter]
         keyed_items.sort(key=lambda ki: ki[0], reverse=reverse)
         return [item for _, item in keyed_items]
